@@ -164,11 +164,6 @@ func generate(r *runner.Run, emit func(job) bool) {
 		}
 	}
 
-	// ---- family "bounded queue": histories on queues with queue_limits (bounded_test.go)
-	if ok {
-		ok = boundedJobs(r, emit)
-	}
-
 	// ---- sweep "publish-header": every subset of the publish atoms x 2 bodies
 	cs = nil
 	for mask := 0; mask < 1<<len(pubAtoms); mask++ {
@@ -257,5 +252,11 @@ func generate(r *runner.Run, emit func(job) bool) {
 			}
 			emitBodies(hexes, nil)
 		}
+	}
+
+	// ---- family "bounded queue": histories on queues with queue_limits (bounded_test.go); last, so that a wall
+	// budget cuts this family and not the sweeps above
+	if ok {
+		ok = boundedJobs(r, emit)
 	}
 }
